@@ -28,6 +28,20 @@ theorem C19_every_route_guarded :
     ∀ r ∈ Gen.httpRoutes, r.guarded = true ∧
       r.handler ∈ ["rootHandler", "torRootHandler", "torHandler"] := by decide
 
+/-- the routes of the mux that is really served.  `Serve` creates an `http.Server` without
+    Handler, i.e. it dispatches through the process-global `http.DefaultServeMux`, and
+    registers its three handlers there; nothing else may add routes to that mux behind
+    checkLocal's back: package http has no blank import and imports no package known to
+    register debug handlers, and no package in the transitive import closure of package http
+    and of the main package (found by scanning their sources for http.Handle /
+    http.HandleFunc / http.DefaultServeMux, not by name) touches the default mux -/
+theorem C19_no_side_effect_routes :
+    Gen.httpServeMux = "default" ∧
+    (∀ i ∈ Gen.httpImports, i.name ≠ "_" ∧ i.path ∉ sideEffectPkgs) ∧
+    Gen.httpClosureSideEffect = [] ∧
+    Gen.httpDefaultMuxUsers = [] ∧
+    50 < Gen.httpClosureSize := by decide
+
 /-- a DNS name in the sense of the property: no colon (so not an IPv6 literal) and at
     least one character that is neither a digit nor a dot (so not a dotted quad) -/
 def dnsName (h : Str) : Prop := 58 ∉ h ∧ ∃ c ∈ h, isDigit c = false ∧ c ≠ 46
